@@ -408,6 +408,22 @@ def template_name_cases(tier):
     return cases
 
 
+def reserved_position_cases(tier):
+    """Reserved / underscore names as declared field names at every position of a field list, alone and together
+    with Python-keyword field names (which switch the class template) - all must be rejected."""
+    cases = []
+    bad = list(RESERVED) + ["_x", "__class__", "_", "__slots__", "_desc", "_field_types"]
+    fillers = [[], [("string", "a")], [("string", "from")], [("string", "class"), ("varint", "a")], [("varint", "a"), ("string", "import")]]
+    for b in bad:
+        for fl in fillers:
+            for pos in range(len(fl) + 1):
+                fields = list(fl)
+                fields.insert(pos, ("string", b))
+                for ch in ("constructor", "stream", "json", "avro"):
+                    cases.append({"name": "t/ok", "fields": fields, "channel": ch, "role": "reserved-field-name"})
+    return cases
+
+
 def exhaustive_cases(tier):
     cases = []
     for role in ("type-name", "field-name", "field-type"):
@@ -496,5 +512,6 @@ def parts(tier):
         Part("short-strings", check_definition, cases=exhaustive_cases, exhaustive=(tier == "thorough")),
         Part("derived-type-names", check_definition, cases=type_name_cases, exhaustive=True),
         Part("template-identifiers", check_definition, cases=template_name_cases, exhaustive=True),
+        Part("reserved-field-positions", check_definition, cases=reserved_position_cases, exhaustive=True),
         Part("generated", check_definition, strategy=generated_case(), examples=(250, 4000)),
     ]
